@@ -70,6 +70,12 @@ Theorem C16_from_any_root : forall s frs o root sels tname prefix c',
   calc s frs o (calc_fuel sels) (fst (push_type ctx0 root)) sels (snd (push_type ctx0 root)) tname prefix = Some c' ->
   fields_all id_rule c' /\ fields_all id_fit c'.
 Proof. exact id_fields_of_any_root. Qed.
+(* serde(default) — what turns an absent key into None — sits on an ID field exactly when its type is an
+   Option: absent nullable IDs are None and absent non-null IDs are errors, at every position *)
+Theorem C16_default_exactly_on_option_fields_anywhere : forall s frs o fuel c sels sid t p c',
+  fields_all id_default c -> calc s frs o fuel c sels sid t p = Some c' -> fields_all id_default c'.
+Proof. exact id_default_exactly_on_option_fields. Qed.
+Print Assumptions C16_default_exactly_on_option_fields_anywhere.
 Print Assumptions C16_helper_exactly_on_id_fields_anywhere.
 Print Assumptions C16_helper_fits_anywhere.
 Print Assumptions C16_from_any_root.
